@@ -37,7 +37,7 @@ class ScriptEnv(gym.Env):
     """
 
     def __init__(self, script="", discrete=False, obs_dim=2, low=(-1.0, 0.0), high=(2.0, 3.0),
-                 n_actions=2, horizon=None, levels="", reward_fn=None, discrete_obs=0):
+                 n_actions=2, horizon=None, levels="", reward_fn=None, discrete_obs=0, reward_kind=None):
         if discrete_obs:
             self.observation_space = gym.spaces.Discrete(discrete_obs)
         else:
@@ -50,6 +50,7 @@ class ScriptEnv(gym.Env):
         self.script, self.levels = script, levels
         self.horizon = horizon
         self.reward_fn = reward_fn
+        self.reward_kind = reward_kind  # "intfirst": first reward a Python int, later ones fractional floats
         self.discrete_obs = discrete_obs
         self.obs_dim = obs_dim
         self.t = 0  # global steps executed
@@ -102,6 +103,8 @@ class ScriptEnv(gym.Env):
         trunc = c in "UB"
         self.done = term or trunc
         r = float(lvl * 100 + self.t) if self.reward_fn is None else float(self.reward_fn(self, lvl))
+        if self.reward_kind == "intfirst":
+            r = int(lvl * 100 + 1) if self.t == 1 else lvl * 100 + self.t + 0.1
         self.log.append(("step", np.array(a), np.array(o), r, term, trunc))
         return o, r, term, trunc, {}
 
